@@ -6,6 +6,10 @@
         -> <hex quote> <unquote_impl(quote)> <unquote_int32(quote)>
      U <hex literal>
         -> <unquote_impl> <unquote_int32>   (int32: the regression layer, see Lit/Unquote.v)
+     I <hex literal> <n>      literal.IndentTabs(literal, n), n any integer
+        -> ok:<hex result> <unquote_impl(result)> <unquote_impl(literal)> | panic - <unquote_impl(literal)>
+     J <form> <hex s> <tbl> <n>
+        -> <hex quote f s> <hex indent_tabs (quote f s) n> <hex quote (set_indent f n) s> <unquote_impl of the second>
      D <hex bytes>  -> <rune> <width> <lastrune> <lastwidth>     (decimal)
      E <hex rune>   -> <hex bytes>
      S <hex bytes>  -> <hex sanitized>
@@ -17,6 +21,7 @@ let rec pos_of_int i = if i = 1 then XH else if i land 1 = 0 then XO (pos_of_int
 let n_of_int i = if i = 0 then N0 else Npos (pos_of_int i)
 let rec int_of_pos = function XH -> 1 | XO p -> 2 * int_of_pos p | XI p -> 2 * int_of_pos p + 1
 let int_of_n = function N0 -> 0 | Npos p -> int_of_pos p
+let z_of_int i = if i = 0 then Z0 else if i > 0 then Zpos (pos_of_int i) else Zneg (pos_of_int (- i))
 let rec nat_of_int i = if i = 0 then O else S (nat_of_int (i - 1))
 let int_of_nat n = let rec go acc = function O -> acc | S m -> go (acc + 1) m in go 0 n
 
@@ -78,6 +83,20 @@ let handle line =
   | ["U"; hl] ->
     let l = str_of_string (unhex hl) in
     Printf.sprintf "%s %s" (show_outcome (c09_unquote_impl l)) (show_outcome (c09_unquote_int32 l))
+  | ["I"; hl; n] ->
+    let l = str_of_string (unhex hl) in
+    (match c09_indent_tabs l (z_of_int (int_of_string n)) with
+     | Ok r -> Printf.sprintf "ok:%s %s %s" (hex (string_of_str r)) (show_outcome (c09_unquote_impl r)) (show_outcome (c09_unquote_impl l))
+     | _ -> Printf.sprintf "panic - %s" (show_outcome (c09_unquote_impl l)))
+  | ["J"; f; hs; t; n] ->
+    let tb = parse_tbl t and fm = parse_form f and s = str_of_string (unhex hs) in
+    let n = int_of_string n in
+    let q = c09_quote tb fm s in
+    (match c09_indent_tabs q (z_of_int n) with
+     | Ok r ->
+       let q2 = c09_quote tb (c09_set_indent fm (nat_of_int n)) s in
+       Printf.sprintf "%s %s %s %s" (hex (string_of_str q)) (hex (string_of_str r)) (hex (string_of_str q2)) (show_outcome (c09_unquote_impl r))
+     | _ -> "panic")
   | ["D"; hs] ->
     let s = str_of_string (unhex hs) in
     let (r, w) = c09_decode s in
